@@ -188,6 +188,8 @@ def gen_case(rng, tier, est=None, seeded=None):
         case["cfg"]["km_thr"] = rng.choice([None, 1e-5, 0.05, 0.25, 0.5])
         case["cfg"]["steps"] = rng.randint(1, 8)
     case["ydtype"] = rng.choice(["int64", "int64", "int32", "uint8", "uint16", "int8", "uint64"])
+    if nc > 120 and case["ydtype"] in ("int8", "uint8"):
+        case["ydtype"] = "int16"  # the label type must be able to hold the class ids
     case["cfg"]["rs_type"] = rng.choice(["int", "int", "int64", "int32", "uint32", "uint64"])
     return case
 
